@@ -1,0 +1,33 @@
+//go:build verif
+// +build verif
+
+package consensus
+
+import (
+	"github.com/LemoFoundationLtd/lemochain-core/chain/types"
+	"github.com/LemoFoundationLtd/lemochain-core/common"
+)
+
+// VerifResetSigCache clears the process wide signature cache. The verification harness runs several nodes with
+// different node keys in one process; the cache is keyed by block hash only.
+func VerifResetSigCache() {
+	sigCache.Hash = common.Hash{}
+	sigCache.Sig = nil
+}
+
+// VerifAssembler exposes the block assembler of the engine (miner path with harness-chosen header).
+func (dp *DPoVP) VerifAssembler() *BlockAssembler {
+	return dp.assembler
+}
+
+// VerifValidator exposes the validator of the engine.
+func (dp *DPoVP) VerifValidator() *Validator {
+	return dp.validator
+}
+
+// VerifSaveNewBlock stores a block assembled through VerifAssembler().MineBlock the same way DPoVP.MineBlock does.
+func (dp *DPoVP) VerifSaveNewBlock(block *types.Block) error {
+	dp.chainLock.Lock()
+	defer dp.chainLock.Unlock()
+	return dp.saveNewBlock(block)
+}
